@@ -5,7 +5,9 @@ package ast
 import (
 	"bytes"
 	"fmt"
+	"sort"
 	"strconv"
+	"strings"
 
 	"github.com/robfig/soy/data"
 )
@@ -676,7 +678,11 @@ type FloatNode struct {
 }
 
 func (n *FloatNode) String() string {
-	return strconv.FormatFloat(n.Value, 'g', -1, 64)
+	var s = strconv.FormatFloat(n.Value, 'g', -1, 64)
+	if !strings.ContainsAny(s, ".eIN") {
+		s += ".0" // keep it a float literal
+	}
+	return s
 }
 
 type StringNode struct {
@@ -749,16 +755,44 @@ func (n *MapLiteralNode) String() string {
 	if len(n.Items) == 0 {
 		return "[:]"
 	}
+	var keys = make([]string, 0, len(n.Items))
+	for k := range n.Items {
+		keys = append(keys, k)
+	}
+	sort.Strings(keys)
 	var expr = "["
-	var first = true
-	for k, v := range n.Items {
-		if !first {
+	for i, k := range keys {
+		if i > 0 {
 			expr += ", "
 		}
-		expr += fmt.Sprintf("'%s': %s", k, v.String())
-		first = false
+		expr += quoteString(k) + ": " + n.Items[k].String()
 	}
 	return expr + "]"
+}
+
+// quoteString returns the Soy string literal for s.
+func quoteString(s string) string {
+	var q = make([]rune, 1, len(s)+10)
+	q[0] = '\''
+	for _, ch := range s {
+		switch ch {
+		case '\\', '\'':
+			q = append(q, '\\', ch)
+		case '\n':
+			q = append(q, '\\', 'n')
+		case '\r':
+			q = append(q, '\\', 'r')
+		case '\t':
+			q = append(q, '\\', 't')
+		case '\b':
+			q = append(q, '\\', 'b')
+		case '\f':
+			q = append(q, '\\', 'f')
+		default:
+			q = append(q, ch)
+		}
+	}
+	return string(append(q, '\''))
 }
 
 func (n *MapLiteralNode) Children() []Node {
@@ -843,7 +877,7 @@ type NotNode struct {
 }
 
 func (n *NotNode) String() string {
-	return "not " + n.Arg.String()
+	return "not " + operandString(n.Arg, precUnary, false)
 }
 
 func (n *NotNode) Children() []Node {
@@ -856,7 +890,12 @@ type NegateNode struct {
 }
 
 func (n *NegateNode) String() string {
-	return "-" + n.Arg.String()
+	switch n.Arg.(type) {
+	case *IntNode, *FloatNode:
+		// "-1" would read back as a negative literal
+		return "-(" + n.Arg.String() + ")"
+	}
+	return "-" + operandString(n.Arg, precUnary, false)
 }
 
 func (n *NegateNode) Children() []Node {
@@ -870,7 +909,75 @@ type BinaryOpNode struct {
 }
 
 func (n *BinaryOpNode) String() string {
-	return n.Arg1.String() + " " + n.Name + " " + n.Arg2.String()
+	var prec = binaryPrecedence[n.Name]
+	// binary operators associate to the left.
+	return operandString(n.Arg1, prec, false) + " " + n.Name + " " + operandString(n.Arg2, prec, true)
+}
+
+// Operator precedence, used to print the parentheses an expression needs to
+// parse back to the same tree.
+const (
+	precTernary = -1
+	precUnary   = 7
+	precValue   = 8
+)
+
+var binaryPrecedence = map[string]int{
+	"*": 6, "/": 6, "%": 6,
+	"+": 5, "-": 5,
+	"<": 4, ">": 4, "<=": 4, ">=": 4,
+	"==": 3, "!=": 3,
+	"and": 2,
+	"or":  1,
+	"?:":  0,
+}
+
+func precedenceOf(n Node) int {
+	switch n := n.(type) {
+	case *TernNode:
+		return precTernary
+	case *NotNode, *NegateNode:
+		return precUnary
+	case *MulNode:
+		return binaryPrecedence[n.Name]
+	case *DivNode:
+		return binaryPrecedence[n.Name]
+	case *ModNode:
+		return binaryPrecedence[n.Name]
+	case *AddNode:
+		return binaryPrecedence[n.Name]
+	case *SubNode:
+		return binaryPrecedence[n.Name]
+	case *EqNode:
+		return binaryPrecedence[n.Name]
+	case *NotEqNode:
+		return binaryPrecedence[n.Name]
+	case *GtNode:
+		return binaryPrecedence[n.Name]
+	case *GteNode:
+		return binaryPrecedence[n.Name]
+	case *LtNode:
+		return binaryPrecedence[n.Name]
+	case *LteNode:
+		return binaryPrecedence[n.Name]
+	case *OrNode:
+		return binaryPrecedence[n.Name]
+	case *AndNode:
+		return binaryPrecedence[n.Name]
+	case *ElvisNode:
+		return binaryPrecedence[n.Name]
+	}
+	return precValue
+}
+
+// operandString prints an operand of an operator of the given precedence,
+// parenthesized if it would otherwise bind differently.
+func operandString(operand Node, parentPrec int, rightOperand bool) string {
+	var prec = precedenceOf(operand)
+	if prec < parentPrec || (rightOperand && prec == parentPrec) {
+		return "(" + operand.String() + ")"
+	}
+	return operand.String()
 }
 
 func (n *BinaryOpNode) Children() []Node {
@@ -900,7 +1007,12 @@ type TernNode struct {
 }
 
 func (n *TernNode) String() string {
-	return n.Arg1.String() + "?" + n.Arg2.String() + ":" + n.Arg3.String()
+	// (the spaces keep "$a ? [1] : 2" from reading back as the null-safe "$a?[1]")
+	var elseStr = n.Arg3.String()
+	if _, ok := n.Arg3.(*TernNode); !ok {
+		elseStr = operandString(n.Arg3, 0, false)
+	}
+	return operandString(n.Arg1, 0, false) + " ? " + operandString(n.Arg2, 0, false) + " : " + elseStr
 }
 
 func (n *TernNode) Children() []Node {
